@@ -154,6 +154,21 @@ class RemoteContext(SupportRemoteGetState):
             assert self._payload is not None
             self._target, self._args, self._kwargs, self._extra_state = loads(self._payload)
             self._payload = None
+
+            def kill_children(*args):
+                # the server does not wait for ever for this helper to stop its workers - if it gets killed while
+                # still waiting for an uncooperative one, the workers should not be left behind
+                for child in self._children:
+                    try:
+                        if child.is_alive():
+                            os.kill(child.pid, signal.SIGTERM)
+                    except Exception:
+                        pass
+
+                signal.signal(signal.SIGTERM, signal.SIG_DFL)
+                os.kill(os.getpid(), signal.SIGTERM)
+
+            signal.signal(signal.SIGTERM, kill_children)
             return True
 
         if _clean:
